@@ -265,6 +265,7 @@ template <class Ch> struct RecBuf : std::basic_streambuf<Ch> {
     typedef std::basic_streambuf<Ch> B; typedef typename B::int_type int_type; typedef typename B::traits_type traits;
     std::basic_string<Ch> data; std::vector<Ch> area; unsigned ovf = 0, fail_at = 0; bool failed = false; bool split_surrogate = false;
     explicit RecBuf(size_t cap) : area(cap) { if (cap) this->setp(area.data(), area.data() + cap); }
+    size_t pending() const { return this->pbase() ? (size_t)(this->pptr() - this->pbase()) : 0; }
     void flush_area() { if (this->pbase()) { data.append(this->pbase(), this->pptr()); this->setp(this->pbase(), this->epptr()); } }
     int_type overflow(int_type c) override {
         ++ovf;
@@ -388,7 +389,9 @@ RunResult run_plan(const Plan &p, Stats *st, std::vector<uint64_t> *nt_pairs) {
     Scalars Rsc; bool Rwf = accepted && dec8_strict(R, Rsc);
     // the chunk sequence the driver emits for this call (public format_writer extension point)
     std::vector<Chunk> chunks;
-    (void)guarded(budget, st, [&] { RecWriter w(fmt.c_str()); with_args(args, [&](const auto &...a) { ST::apply_format(w, a...); }); chunks.swap(w.chunks); });
+    Ex recex = guarded(budget, st, [&] { RecWriter w(fmt.c_str()); with_args(args, [&](const auto &...a) { ST::apply_format(w, a...); }); chunks.swap(w.chunks); });
+    // the bytes the driver emitted, whether or not they are UTF-8 (format_latin_1 takes every byte for a Latin-1 character: it has a defined result where ST::format rejects the call)
+    std::string raw; const bool raw_ok = recex == X_NONE; if (raw_ok) for (const Chunk &ch : chunks) raw += ch.bytes;
     bool chunk_not_self_contained = false, has_padding = false, multi_unit = false;
     for (const Chunk &c : chunks) { Scalars t; if (!dec8_strict(c.bytes, t)) chunk_not_self_contained = true; if (c.is_char && c.bytes.size() > 1) has_padding = true; }
     for (unsigned char ch : R) if (ch >= 0x80) multi_unit = true;
@@ -449,9 +452,10 @@ RunResult run_plan(const Plan &p, Stats *st, std::vector<uint64_t> *nt_pairs) {
         case SK_LATIN1: {
             std::string got;
             Ex ex = guarded(budget, st, [&] { with_args(args, [&](const auto &...a) { ST::string r = ST::format_latin_1(fmt.c_str(), a...); got.assign(r.c_str(), r.size()); }); });
-            if (!accepted) break;
+            if (!accepted && !(rex == X_UNICODE && raw_ok)) break;
+            const std::string want = latin1_ref(accepted ? R : raw);
             if (ex != X_NONE) { set_viol(V, "latin1_differs", site, std::string("ST::format_latin_1 threw ") + EXN[ex]); break; }
-            if (got != latin1_ref(R)) set_viol(V, "latin1_differs", site, "format_latin_1 " + first_diff(got, latin1_ref(R)));
+            if (got != want) set_viol(V, "latin1_differs", site, "format_latin_1 " + first_diff(got, want));
             break;
         }
         case SK_FORMAT_V: {     // the other spellings of the in-memory sink: format(validation, ...), "..."_stfmt(...)
@@ -475,8 +479,12 @@ RunResult run_plan(const Plan &p, Stats *st, std::vector<uint64_t> *nt_pairs) {
                 if (k.b & 1) os.exceptions(std::ios_base::badbit);
                 // formatting state left on the stream by its owner: writef emits its output unformatted, so a pending field width or fill must not show
                 if (((k.b >> 1) & 7) == 7) { os.width(1 + (std::streamsize)(k.a % 40)); if constexpr (std::is_same_v<Ch, char> || std::is_same_v<Ch, wchar_t>) os.fill(Ch('#'));      /* (fill() needs a ctype facet, which libstdc++ lacks for char16_t / char32_t) */ os.setf((k.b & 16) ? std::ios_base::left : std::ios_base::right, std::ios_base::adjustfield); if (st) st->probe[PC_OSTREAM_PENDING_WIDTH]++; }
+                // a unit-buffered stream (std::cerr is one) hands everything to its device before an output operation returns
+                const bool unitbuf = ((k.b >> 5) & 1) != 0; if (unitbuf) os.setf(std::ios_base::unitbuf);
                 unsigned ovf_inside = 0;
                 Ex ex = guarded(budget, st, [&] { with_args(args, [&](const auto &...a) { ST::writef(os, fmt.c_str(), a...); }); ovf_inside = rb.ovf; });
+                const size_t held_back = rb.pending();
+                if (unitbuf && accepted && ex == X_NONE && !rb.failed && held_back) { set_viol(V, "sink_bytes_differ", site, "unit-buffered stream: " + std::to_string(held_back) + " unit(s) of the output are still in the put area when writef returns"); return; }
                 rb.flush_area();
                 flushed_inside = ovf_inside > 0; fault_fired = rb.failed;
                 if (rb.split_surrogate && st) st->probe[PC_OVERFLOW_BETWEEN_SURROGATES]++;
